@@ -167,9 +167,16 @@ def run(ctx):
                 cs.append(dict(op='mix', f=f, c1=c1, c2=c2, a=[7, 1], b=[3, 1], k=k, pre=pre))
     cs += newcur_cases()
     cs += construct_cases(quick)
+    # quantity * price per quantity: money in the price's currency, in every order of currencies
+    decl = [dict(c=c_, m='kg') for c_ in ('EUR', 'USD', 'JPY')]
+    pm = []
+    for seq in itertools.permutations(('EUR', 'USD', 'JPY'), 2):
+        for form in ('mul', 'rmul'):
+            pm.append(dict(op='price_mass', decl=decl, form=form, seq=[[seq[0], [21, 4]], [seq[1], [5, 1]]]))
     moneycheck.model(ctx)
     moneycheck.judge(ctx, near, 'iso-spellings', codes=['EUR'])
     moneycheck.judge(ctx, cs, 'iso+mix', codes=sample)
+    moneycheck.judge(ctx, pm, 'price-products', codes=['EUR', 'USD', 'JPY'], group=lambda c: 'one')
     ctx.exhaustive['ISO 4217 table entries'] = True
 
 
